@@ -21,13 +21,23 @@ func TestVerifC17Gen(t *testing.T) {
 	p := vrep.Env()
 	res := vrep.New("C17", p)
 	defer res.Guard()
-	res.Rule = "generator leg: (c) every ordered list of 1-3 records over {cmd/go, cmd/compile, gopls} x minimum version {none, low, high} x depth {0,5} through the real generate with a fixed set of known versions: each counter expression listed once under its program, as a stack iff it has a depth, versions = every known version not older than the smallest minimum of the program's records (Go-version order for toolchain programs, semver order otherwise; padded extras allowed); (d) padVersions on every subset (size <= 3, thorough 4) of a 10-version pool x 243 padding settings: superset of the input, sorted, duplicate-free, no panic"
-	versionsForTesting = map[string][]string{
+	res.Rule = "generator leg: (c) every ordered list of 1-3 records over {cmd/go, cmd/compile, gopls} x minimum version {none, low, high, newer than every known release} x depth {0,5} through the real generate with a fixed set of known versions: each counter expression listed once under its program, as a stack iff it has a depth, versions = every known version not older than the smallest minimum of the program's records (Go-version order for toolchain programs, semver order otherwise; padded extras allowed); (d) padVersions on every subset (size <= 3, thorough 4) of a 10-version pool, and those lists with one version named twice, x 243 padding settings: superset of the input, sorted, duplicate-free, no panic"
+	// The known versions are installed afresh before every generate call (generate filters the list it is
+	// handed in place). They include early releases (v0.0.1, v0.1.0, v1.0.0): version padding counts up from a
+	// release, so it can only be told apart from a listing of old real releases if such releases exist.
+	pristine := map[string][]string{
 		"golang.org/toolchain":     {"v0.0.1-go1.20.linux-amd64", "v0.0.1-go1.21.0.linux-amd64", "v0.0.1-go1.21.5.linux-amd64", "v0.0.1-go1.22.0.linux-amd64", "v0.0.1-go1.23rc1.linux-amd64", "v0.0.1-go1.23.0.linux-amd64"},
-		"golang.org/x/tools/gopls": {"v0.13.0", "v0.14.0", "v0.14.1-pre.1", "v0.14.1", "v0.15.0-pre.1"},
+		"golang.org/x/tools/gopls": {"v0.0.1", "v0.1.0", "v0.13.0", "v0.14.0", "v0.14.1-pre.1", "v0.14.1", "v0.15.0-pre.1"},
 	}
+	install := func() {
+		versionsForTesting = map[string][]string{}
+		for k, v := range pristine {
+			versionsForTesting[k] = append([]string{}, v...)
+		}
+	}
+	install()
 	goKnown := []string{"go1.20", "go1.21.0", "go1.21.5", "go1.22.0", "go1.23rc1", "go1.23.0"}
-	goplsKnown := versionsForTesting["golang.org/x/tools/gopls"]
+	goplsKnown := pristine["golang.org/x/tools/gopls"]
 	type recSpec struct {
 		prog  string
 		min   string
@@ -35,9 +45,10 @@ func TestVerifC17Gen(t *testing.T) {
 	}
 	var specs []recSpec
 	for _, prog := range []string{"cmd/go", "cmd/compile", "golang.org/x/tools/gopls"} {
-		mins := []string{"", "go1.21.0", "go1.23.0"}
+		mins := []string{"", "go1.21.0", "go1.23.0", "go1.24.0"}
 		if !strings.HasPrefix(prog, "cmd/") {
-			mins = []string{"", "v0.13.0", "v0.14.1"}
+			// v0.16.0: a chart added for the next, not yet tagged release
+			mins = []string{"", "v0.13.0", "v0.14.1", "v0.16.0"}
 		}
 		for _, m := range mins {
 			for _, d := range []int{0, 5} {
@@ -79,6 +90,7 @@ func TestVerifC17Gen(t *testing.T) {
 		}
 		desc := fmt.Sprint(list)
 		res.Evaluations++
+		install()
 		ucfg, err := generate(cfgs, regularPaddings)
 		if err != nil {
 			res.Violate("generate-failed", fmt.Sprintf("generate: %v [%s]", err, desc), nil)
@@ -168,6 +180,15 @@ func TestVerifC17Gen(t *testing.T) {
 		}
 	}
 	gen(0, nil)
+	// "all version lists": also lists that name a version twice (first and last element repeated)
+	for _, sub := range append([][]string{}, subsets...) {
+		if n := len(sub); n >= 1 && n < maxN {
+			subsets = append(subsets, append(append([]string{}, sub...), sub[0]))
+			if n >= 2 {
+				subsets = append(subsets, append([]string{sub[n-1]}, sub...))
+			}
+		}
+	}
 	pres := []string{"pre.1", "pre.2", "pre.3"}
 	for _, sub := range subsets {
 		for code := 0; code < 243; code++ {
